@@ -206,6 +206,28 @@ op('qr')((lambda c, L, ck, r: {'A': palette.block_matrix(c.rng(0), np.array([0, 
 op('split_matrix_svd')((lambda c, L, ck, r: {'A': palette.block_matrix(c.rng(0), np.array([0, 1, 0]), np.array([1, 0] if ck == 'u1' else [5, 7]), 'complex'),
                                              'q0': np.array([0, 1, 0]), 'q1': np.array([1, 0] if ck == 'u1' else [5, 7])},
                         lambda A, q0, q1: bond_ops.split_matrix_svd(A, q0, q1, 0.1)))
+
+
+def _mat_operands(lay, chg):
+    # memory layout x sortedness of the charges: a sorted / constant charge vector makes the blocks views of the caller's matrix
+    q0, q1 = {'sorted': ([0, 0, 1], [0, 1]), 'const': ([0, 0, 0], [0, 0]), 'column': ([0, 0, 1], [0]), 'row': ([0], [0, 0, 1])}[chg]
+
+    def build(c, L, ck, r):
+        a0, a1 = np.array(q0), np.array(q1)
+        A = palette.block_matrix(c.rng(0), a0, a1, 'real' if r else 'complex')
+        if r:
+            A = A.real.copy()
+        A = np.asfortranarray(A) if lay == 'F' else np.ascontiguousarray(A)
+        return {'A': A, 'q0': a0, 'q1': a1}
+    return build
+
+
+for _lay in ('C', 'F'):
+    for _chg in ('sorted', 'const', 'column', 'row'):
+        op(f'qr:{_lay}:{_chg}')((_mat_operands(_lay, _chg), lambda A, q0, q1: bond_ops.qr(A, q0, q1)))
+        op(f'split_matrix_svd:{_lay}:{_chg}')((_mat_operands(_lay, _chg), lambda A, q0, q1: bond_ops.split_matrix_svd(A, q0, q1, 0.1)))
+        op(f'split_matrix_svd_tol0:{_lay}:{_chg}')((_mat_operands(_lay, _chg), lambda A, q0, q1: bond_ops.split_matrix_svd(A, q0, q1, 0.0)))
+
 op('retained_bond_indices')((lambda c, L, ck, r: {'s': np.array([0.9, 0.1, 0.5, 0.3])}, lambda s: bond_ops.retained_bond_indices(s, 0.05)))
 op('merge_mps_tensor_pair')((lambda c, L, ck, r: {'A0': mk(c, 2, ck, r)['psi'].A[0], 'A1': mk(c, 2, ck, r)['psi'].A[1]},
                              lambda A0, A1: merge_mps_tensor_pair(A0, A1)))
